@@ -9,7 +9,8 @@ TEXT = ('Per-chunk ordering modulators ≺ clocks ≺ listeners ≺ mixer with t
         'checked clock lookup; Never cancels (StartTime::update true only on Never); clock-timed tweens start only on Now; '
         'and the torn-read shape: a struct whose logical value is published through two independent atomics, read back with '
         'two independent loads into one value while another function stores both, without a sequence protocol. Exact tick '
-        'arithmetic and the set of interleavings are not decided.')
+        'arithmetic and the set of interleavings are not decided.'
+        ' StartTime::update turns a delay / clock time into Immediate exactly when it is due and reports a removed clock.')
 TECHNIQUE = 'MIR ordering / path-predicate rules + atomic-group (composite read vs composite write) shape analysis'
 
 
@@ -20,6 +21,7 @@ def run(ctx, R, tier):
     cancel(F, R)
     tween(F, R)
     clock_rules(F, R)
+    start_time_rule(F, R)
     from .c06 import ungated
     ungated(F, R, rule='B.C05.speed-ungated')
     torn(F, R)
@@ -175,6 +177,65 @@ def tween(F, R):
         R.check(ok, 'B.C05.tween', path, 'a clock-timed tween is started on %s, not on when_to_start(..) == Now' % (d or 'no comparison'),
                 detail={'started': d[:200]}, where=b.file)
     R.floor('B.C05.tween', n, 2)
+
+
+def start_time_rule(F, R):
+    """StartTime::update, the countdown every sound / track start uses: a delay is reduced by the elapsed time and becomes
+    Immediate exactly when nothing remains; a clock time becomes Immediate exactly when the clock says Now, stays pending on
+    Later, and reports "will never start" (true) exactly on Never; every other path returns false."""
+    b = F.body('start_time::StartTime::update')
+    if not R.check(b is not None, 'B.C05.start', 'anchor', 'StartTime::update not found'):
+        return
+    seen = set()
+    bad = []
+    for p in explore(b):
+        if p.end != 'return':
+            continue
+        arm = None
+        zero = None
+        when = None
+        for bb, desc, lab in p.decisions:
+            if desc.startswith('discr(') and lab in ('Immediate', 'Delayed', 'ClockTime'):
+                arm = lab
+            if 'Duration::is_zero(' in desc:
+                zero = bool_label(lab)
+            if 'when_to_start(' in desc and lab in ('Now', 'Later', 'Never'):
+                when = lab
+        sets = [describe_rv_(b, s) for x in p.blocks for s in b.blocks[x]['stmts']
+                if s['k'] == 'assign' and s['lhs']['p'] and pretty_place(b, s['lhs']) in ('(*self)',)]
+        sets += ['setdiscr:%s' % s.get('variant') for x in p.blocks for s in b.blocks[x]['stmts']
+                 if s['k'] == 'setdiscr' and pretty_place(b, s['lhs']) == '(*self)']
+        to_imm = any('Immediate' in x or x == 'setdiscr:0' for x in sets)
+        ret = str(p.ret)
+        key = (arm, zero, when)
+        seen.add(key)
+        if arm == 'Delayed':
+            sub = any((c or '').endswith('Duration::saturating_sub') for _, c in p.calls)
+            if not sub:
+                bad.append('the delay is not reduced by the elapsed time')
+            if zero is True and not to_imm:
+                bad.append('a delay that has run out does not become Immediate')
+            if zero is False and to_imm:
+                bad.append('a delay that has NOT run out becomes Immediate')
+            if zero is None:
+                bad.append('the remaining delay is not tested')
+            if ret != 'False':
+                bad.append('the Delayed arm returns %s' % ret)
+        elif arm == 'ClockTime':
+            if when == 'Now' and not to_imm:
+                bad.append('Now does not make the start time Immediate')
+            if when in ('Later', 'Never') and to_imm:
+                bad.append('%s makes the start time Immediate' % when)
+            if (when == 'Never') != (ret == 'True'):
+                bad.append('when_to_start == %s returns %s' % (when, ret))
+            if when is None:
+                bad.append('the clock is not asked')
+        elif arm == 'Immediate':
+            if to_imm is False and ret != 'False':
+                bad.append('Immediate returns %s' % ret)
+    arms = set(k[0] for k in seen)
+    R.check(not bad and arms >= {'Immediate', 'Delayed', 'ClockTime'}, 'B.C05.start', 'StartTime::update',
+            '; '.join(sorted(set(bad))) or 'arms found: %s' % sorted(x for x in arms if x), detail={'paths': len(seen)}, where=b.file)
 
 
 def clock_rules(F, R):
